@@ -32,7 +32,7 @@ Theorem C04_adoption_needs_majority :
                     end)
           (dedupN (d_delegates (r_doc prev)))))
       > N.of_nat (length (d_delegates (r_doc prev))).
-Proof. exact adoption_needs_majority. Qed.
+Proof. exact adoption_needs_majority_any. Qed.
 
 (* An operation authored by a key that is not a delegate of the current document leaves
    current, all revisions (documents, states, verdicts) and heads unchanged — whatever its
@@ -75,7 +75,7 @@ Theorem C04_current_stable :
   (i_current post <> i_current pre ->
      exists r, get_rev post (i_current post) = Some r /\
                r_parent r = Some (i_current pre) /\ r_state r = Accepted).
-Proof. exact current_stable. Qed.
+Proof. exact current_stable_any. Qed.
 
 (* The `expect`s in Identity::current / current_mut and the three
    assert_eq!(revision.parent, Some(current.id)) never fire, in any history. *)
@@ -88,9 +88,21 @@ Theorem C04_no_internal_panic :
          (run_ops sig_ok blob_store dbg s0 ops).
 Proof.
   intros sig_ok blob_store dbg root s0 ops H.
-  eapply Forall_impl; [|exact (no_internal_panic sig_ok blob_store dbg root s0 ops H)].
+  eapply Forall_impl; [|exact (no_internal_panic_any sig_ok blob_store dbg root s0 ops H)].
   intros x Hx. unfold internal_panic in Hx. tauto.
 Qed.
+
+(* Beyond the property: if every document a blob parses to has a delegate (Delegates::new
+   refuses an empty list), the ONLY panic any history can reach is the debug-only
+   debug_assert!(!timeline.contains(&id)) (an operation with several actions in a debug build). *)
+Theorem C04_only_debug_panic :
+  forall (sig_ok : N -> N -> N -> bool) (blob_store : N -> blob_res)
+         (dbg : bool) (root : init_spec) (s0 : identity) (ops : list op),
+  (forall b d, blob_store b = BDoc d -> d_delegates d <> []) ->
+  from_root sig_ok root = inl s0 ->
+  Forall (fun x => forall p, fst x = OPanic p -> p = PDebugTimeline /\ dbg = true)
+         (run_ops sig_ok blob_store dbg s0 ops).
+Proof. exact only_debug_panic. Qed.
 
 (* ---------------------------------------------------------------- non-vacuity *)
 
@@ -155,3 +167,33 @@ Example C04_example_non_delegate :
              mkOp 12 4 false [AAccept 11 7] ])
       = [(OOk, 10); (OOk, 10); (OErr EUnexpectedState, 10)].
 Proof. eexists. split; [vm_compute; reflexivity|]. vm_compute; reflexivity. Qed.
+
+(* Why the atomicity of Identity::op matters for this property (regression documentation;
+   /repo commit 8571255): [action_step] records the vote in `heads` BEFORE the signature is
+   verified.  If a rejected operation's partial effects were kept (the behaviour before that
+   commit: actions applied in place), the forged accept of the previous example would be
+   counted by the next `adopt`: 2 valid signatures out of 4 delegates get adopted. *)
+Definition apply_op_in_place (sig_ok : N -> N -> N -> bool) (blob_store : N -> blob_res)
+  (dbg : bool) (s : identity) (o : op) : identity :=
+  fst (op_loop sig_ok blob_store dbg s (o_id o) (o_author o) (o_conc o) (o_actions o)).
+
+Example C04_in_place_ops_would_break_majority :
+  exists s0, from_root (sig_tbl ex4_sigs) ex_root = inl s0 /\
+    let s := fold_left (apply_op_in_place (sig_tbl ex4_sigs) (blob_tbl ex4_blobs) true) ex4_ops s0 in
+    i_current s = 11 /\
+    exists prev r, get_rev s 10 = Some prev /\ get_rev s 11 = Some r /\
+      valid_accepts (sig_tbl ex4_sigs) (r_doc prev) r = 2 /\ ndelegates (r_doc prev) = 4.
+Proof.
+  eexists. split; [vm_compute; reflexivity|]. split; [vm_compute; reflexivity|].
+  eexists. eexists. split; [vm_compute; reflexivity|]. split; [vm_compute; reflexivity|].
+  split; vm_compute; reflexivity.
+Qed.
+
+(* the debug-only assertion is reachable: a two-action operation in a debug build *)
+Example C04_example_debug_timeline_panic :
+  exists s0, from_root (sig_tbl ex_sigs) ex_root = inl s0 /\
+    map fst (run_ops (sig_tbl ex_sigs) (blob_tbl ex_blobs) true s0
+               [mkOp 10 1 true [ARevision 1 1 (Some 1) 2; AReject 10]]) = [OPanic PDebugTimeline] /\
+    map fst (run_ops (sig_tbl ex_sigs) (blob_tbl ex_blobs) false s0
+               [mkOp 10 1 true [ARevision 1 1 (Some 1) 2; AReject 10]]) = [OOk].
+Proof. eexists. split; [vm_compute; reflexivity|]. split; vm_compute; reflexivity. Qed.
